@@ -230,6 +230,22 @@ class __Class(_pre.Pregex):
         super().__init__(pattern, escape=False)
 
 
+    @staticmethod
+    def _to_char(c) -> str:
+        '''
+        Returns the single character that the provided string or token \
+        stands for, or ``None`` if it does not stand for a single character.
+
+        :param str | Pregex c: Either a string or a token.
+        '''
+        if not isinstance(c, (str, _pre.Pregex)):
+            return None
+        c = str(c)
+        if len(c) == 2 and c[0] == "\\":
+            c = c[1]
+        return c if len(c) == 1 else None
+
+
     def _get_verbose_pattern(self) -> str:
         '''
         Returns a verbose representation of this class's pattern.
@@ -1016,14 +1032,10 @@ class AnyBetween(__Class):
             point of character ``start``, as defined by the Unicode Standard.
         '''
         for c in (start, end):
-            if isinstance(c, (str, _pre.Pregex)):
-                if len(str(c).replace("\\", "", 1)) > 1:
-                    message = f"Argument \"{c}\" is neither a string nor a token."
-                    raise _ex.InvalidArgumentTypeException(message)
-            else:
+            if __class__._to_char(c) is None:
                 message = f"Argument \"{c}\" is neither a string nor a token."
                 raise _ex.InvalidArgumentTypeException(message)
-        start, end = str(start), str(end)
+        start, end = __class__._to_char(start), __class__._to_char(end)
         if ord(start) >= ord(end):
             raise _ex.InvalidRangeException(start, end)
         start = f"\\{start}" if start in __class__._to_escape else start
@@ -1063,14 +1075,10 @@ class AnyButBetween(__Class):
             point of character ``start``, as defined by the Unicode Standard.
         '''
         for c in (start, end):
-            if isinstance(c, (str, _pre.Pregex)):
-                if len(str(c).replace("\\", "", 1)) > 1: 
-                    message = f"Argument \"{c}\" is neither a string nor a token."
-                    raise _ex.InvalidArgumentTypeException(message)
-            else:
+            if __class__._to_char(c) is None:
                 message = f"Argument \"{c}\" is neither a string nor a token."
                 raise _ex.InvalidArgumentTypeException(message)
-        start, end = str(start), str(end)
+        start, end = __class__._to_char(start), __class__._to_char(end)
         if ord(start) >= ord(end):
             raise _ex.InvalidRangeException(start, end)
         start = f"\\{start}" if start in __class__._to_escape else start
@@ -1109,15 +1117,11 @@ class AnyFrom(__Class):
             message = f"No characters were provided to \"{__class__.__name__}\"."
             raise _ex.NotEnoughArgumentsException(message)
         for c in chars:
-            if isinstance(c, (str, _pre.Pregex)):
-                if len(str(c).replace("\\", "", 1)) > 1: 
-                    message = f"Argument \"{c}\" is neither a string nor a token."
-                    raise _ex.InvalidArgumentTypeException(message)
-            else:
+            if __class__._to_char(c) is None:
                 message = f"Argument \"{c}\" is neither a string nor a token."
                 raise _ex.InvalidArgumentTypeException(message)
-        chars = tuple((f"\\{c}" if c in __class__._to_escape else c) \
-            if isinstance(c, str) else str(c) for c in chars)
+        chars = tuple(__class__._to_char(c) for c in chars)
+        chars = tuple((f"\\{c}" if c in __class__._to_escape else c) for c in chars)
         super().__init__(f"[{''.join(chars)}]", is_negated=False)
 
 
@@ -1152,15 +1156,11 @@ class AnyButFrom(__Class):
             message = f"No characters were provided to \"{__class__.__name__}\"."
             raise _ex.NotEnoughArgumentsException(message)
         for c in chars:
-            if isinstance(c, (str, _pre.Pregex)):
-                if len(str(c).replace("\\", "", 1)) > 1: 
-                    message = f"Argument \"{c}\" is neither a string nor a token."
-                    raise _ex.InvalidArgumentTypeException(message)
-            else:
+            if __class__._to_char(c) is None:
                 message = f"Argument \"{c}\" is neither a string nor a token."
                 raise _ex.InvalidArgumentTypeException(message)
-        chars = tuple((f"\{c}" if c in __class__._to_escape else c)
-            if isinstance(c, str) else str(c) for c in chars)
+        chars = tuple(__class__._to_char(c) for c in chars)
+        chars = tuple((f"\\{c}" if c in __class__._to_escape else c) for c in chars)
         super().__init__(f"[^{''.join(chars)}]", is_negated=True)
 
 
